@@ -137,6 +137,14 @@ def jobs(tier, seed=0):
     # no storage between years with demand that never stops, for countries that reach the threshold without feed
     for cc in ("BRA", "SEN"):
         res.append(dict(cc=cc, preset="nw_nostore_continued", options=copy.deepcopy(V["nw_nostore_continued"])))
+    # cells in which the fed herds give less meat than the unfed ones (in one month: PAK; over the horizon: LSO; MNG: meat re-timed
+    # although the unfed round is never ahead)
+    harsh = dict(meat_strategy="reduce_breeding", grasses="country_nuclear_winter", crop_disruption="country_nuclear_winter", shutoff="long_delayed_shutoff")
+    res.append(dict(cc="PAK", preset="base_reduce_nwgrass_60m", options=dict(copy.deepcopy(P["net_baseline"]), meat_strategy="reduce_breeding",
+                                                                             grasses="country_nuclear_winter", NMONTHS=60)))
+    for cc in ("LSO", "MNG"):
+        res.append(dict(cc=cc, preset="base_harsh_72m", options=dict(copy.deepcopy(P["net_baseline"]), NMONTHS=72, **harsh)))
+    res.append(dict(cc="MNG", preset="nw_long_delayed_shutoff", options=dict(copy.deepcopy(P["net_nuclear_winter"]), shutoff="long_delayed_shutoff")))
     # feed and biofuel demand overridden to nothing
     res.append(dict(cc="ARG", preset="nw_zero_demand", options=copy.deepcopy(V["nw_zero_demand"])))
     # a run whose title contains a dot (the saved tables are named after the title)
